@@ -24,13 +24,19 @@ import (
 //         e<k>           client EXECUTEs statement k
 //         b<k>           client sends a BATCH with statement k as a prepared child
 //         f<h>           node h restarts (forgets its prepared statements; connections stay)
-//         x<h>:<err|drop> the next PREPARE reaching node h fails that way
+//         x<h>:<err|inv|drop> the next PREPARE reaching node h fails that way (server error / INVALID / connection lost)
+//       statements 1, 2 are idempotent, 3, 4 are not (now())
 //         a              a new node joins (delivered to the proxy as the Add event a topology refresh produces)
 // real: one token per client action: ok | prepared | unprepared | err | proxyerr | none ; then reprep=<hosts>
 
 func init() { streams["prep"] = stream{gen: genPrep, run: runPrep} }
 
-func stmtK(k int) string { return fmt.Sprintf("INSERT INTO ks.t (k, v) VALUES (%d, ?)", k) }
+func stmtK(k int) string {
+	if k >= 3 { // not idempotent
+		return fmt.Sprintf("INSERT INTO ks.t (k, v, w) VALUES (%d, ?, now())", k)
+	}
+	return fmt.Sprintf("INSERT INTO ks.t (k, v) VALUES (%d, ?)", k)
+}
 
 func runPrep(op string) (out string) {
 	defer func() {
@@ -90,6 +96,9 @@ func runPrep(op string) (out string) {
 				delete(failNext, rq.Node)
 				if f == "drop" {
 					return fakecass.Response{Kind: fakecass.RespClose}
+				}
+				if f == "inv" {
+					return fakecass.Response{Kind: fakecass.RespMsg, Msg: &message.Invalid{ErrorMessage: "prepare refused"}}
 				}
 				return fakecass.Response{Kind: fakecass.RespMsg, Msg: &message.ServerError{ErrorMessage: "prepare failed"}}
 			}
@@ -212,6 +221,8 @@ func genPrep(e *emitter, r *rng.R, n int, tier string) {
 		"H:2 Z:- p1 a e1 e1 e1 e1",
 		"H:2 Z:- p1 e1 e1 f0 f1 e1 e1 b1",
 		"H:3 Z:- p1 x1:err e1 e1 e1 x2:drop e1 e1",
+		"H:3 Z:- p1 x1:inv e1 e1 e1 p3 x2:err e3 e3 e3 x0:inv e3 e3 e3 b3",
+		"H:2 Z:- p3 f0 f1 x0:drop e3 e3 e3 x1:inv p4 p4",
 	}
 	defer func() { e.emitAll(ops, 12) }()
 	for i := 0; i < n; i++ {
@@ -222,24 +233,28 @@ func genPrep(e *emitter, r *rng.R, n int, tier string) {
 		prepared := map[int]bool{}
 		for j := 0; j < 4+rr.Intn(10); j++ {
 			k := 1 + rr.Intn(2)
+			if rr.Intn(3) == 0 {
+				k += 2
+			}
+			other := func(k int) int { return (k-1)^1 + 1 } // the other statement of the same kind
 			switch c := rr.Intn(20); {
 			case c < 3 || len(prepared) == 0:
 				parts = append(parts, fmt.Sprintf("p%d", k))
 				prepared[k] = true
 			case c < 12:
 				if !prepared[k] {
-					k = 3 - k
+					k = other(k)
 				}
 				parts = append(parts, fmt.Sprintf("e%d", k))
 			case c < 14:
 				if !prepared[k] {
-					k = 3 - k
+					k = other(k)
 				}
 				parts = append(parts, fmt.Sprintf("b%d", k))
 			case c < 16:
 				parts = append(parts, fmt.Sprintf("f%d", rr.Intn(h+added)))
 			case c < 18:
-				parts = append(parts, fmt.Sprintf("x%d:%s", rr.Intn(h+added), rr.Pick([]string{"err", "drop"})))
+				parts = append(parts, fmt.Sprintf("x%d:%s", rr.Intn(h+added), rr.Pick([]string{"err", "drop", "inv"})))
 			default:
 				if added < 1 {
 					parts = append(parts, "a")
